@@ -37,7 +37,7 @@ FLOORS = {'par_runs': 90, 'forced_permutations_observed': 60,
           'blocks_checked': 250, 'tokens_checked': 800,
           'overlapping_runs': 50, 'alive_samples': 250,
           'arrival_barriers_passed': 60, 'yield_lines': 2000,
-          'transient_read_errors': 15}
+          'transient_read_errors': 15, 'tests_with_several_events': 25}
 BATCH_TIMEOUT = 900
 
 
@@ -273,6 +273,7 @@ def run_case(case):
     rng = random.Random(case['wseed'])
     k, N, perm, hold = case['k'], case['N'], case['perm'], case['hold']
     prefix = 'vwj%d' % case['idx']
+    multi_event = [0]
     layers = []
     tbl = {}
     tokens = {}
@@ -305,16 +306,33 @@ def run_case(case):
             tok = 'TOK-%s-%d-%d' % (name, j, rng.randrange(10 ** 6))
             tokens.setdefault(name, []).append(tok)
             kind = 'pass'
-            if rng.random() < 0.25:
-                kind = rng.choice(['fail', 'error'])
-            tests.append({'name': 'test_%d' % j, 'kind': kind,
-                          'actions': [{'ph': 'body', 'do': 'write',
-                                       'stream': 'stdout',
-                                       'text': tok + '\n', 'flush': True}]})
+            t = {'name': 'test_%d' % j}
+            if rng.random() < 0.3:
+                # every kind of outcome, also tests that produce more result
+                # events than there are tests (several failing sub-tests,
+                # body + tearDown errors): a layer may report more failures
+                # than tests
+                kind = rng.choice(['fail', 'error', 'subtests', 'subtests',
+                                   'body_teardown_error', 'uxsuccess',
+                                   'skip_body', 'xfail',
+                                   'fail_teardown_error'])
+                if kind == 'subtests':
+                    t['subs'] = [rng.choice('FFEP')
+                                 for _ in range(rng.randint(2, 4))]
+                    if not set(t['subs']) & {'F', 'E'}:
+                        t['subs'][0] = 'F'
+                    if t['subs'].count('F') + t['subs'].count('E') > 1:
+                        multi_event[0] += 1
+            t.update({'kind': kind,
+                      'actions': [{'ph': 'body', 'do': 'write',
+                                   'stream': 'stdout',
+                                   'text': tok + '\n', 'flush': True}]})
+            tests.append(t)
         tbl[name] = tests
     spec = gen.simple_world(prefix, layers, tbl)
     lm = spec['layers_module']
     full = {i: '%s.L%d' % (lm, i) for i in range(k)}
+    tests_with_several_events = multi_event[0]
     tids = {}
     for tid, ts, layer, lvl, m, node in vworld.iter_tests(spec):
         tids.setdefault(layer, []).append(tid)
@@ -437,6 +455,7 @@ def run_case(case):
             return {'inconclusive': 'finish-order barrier timed out: %r'
                     % (e0,), 'counters': counters}
         # (a) equivalence
+        C('tests_with_several_events', tests_with_several_events)
         par_ran = common.ran_counts(ev, 'test.setUp')
         if par_ran != seq_ran:
             V('executed-multiset-differs-from-sequential', 'par-executed',
